@@ -31,7 +31,7 @@ class TLCResult:
 
 _RE_STATES = re.compile(r"(\d+) states generated, (\d+) distinct states found")
 _RE_DEPTH = re.compile(r"The depth of the complete state graph search is (\d+)")
-_RE_COV = re.compile(r"^<(\w+) line \d+, col \d+ to line \d+, col \d+ of module (\w+)>: (\d+):(\d+)", re.M)
+_RE_COV = re.compile(r"^<(\w+) line \d+, col \d+ to line \d+, col \d+ of module (\w+)(?: \([\d ]+\))?>: (\d+):(\d+)", re.M)
 _RE_SIMDONE = re.compile(r"The number of states generated: (\d+)")
 
 
@@ -112,9 +112,18 @@ def _parse(r):
         r.coverage[name] = (od + d, og + g)
     # PrintT payloads: lines that start with << or a quote, outside of error traces
     prints = []
+    acc = None
     for line in out.splitlines():
+        if acc is not None:                      # continuation of a tuple TLC pretty-printed over several lines
+            acc.append(line.strip())
+            if line.rstrip().endswith(">>"):
+                prints.append("<<" + " ".join(acc)[2:].lstrip())
+                acc = None
+            continue
         if line.startswith("<<\"") or line.startswith("\"@"):
             prints.append(line)
+        elif line.startswith("<< \"") and not line.rstrip().endswith(">>"):
+            acc = [line.strip()]
     r.prints = prints
     fin = "Model checking completed. No error has been found." in out or \
           re.search(r"Finished in \d", out) is not None and "Error:" not in out
